@@ -315,7 +315,13 @@ func RepoFrame() (inner string, chain []string) {
 
 var reClosure = regexp.MustCompile(`(\.func\d+)+(\.\d+)*$|\.gowrap\d+$`)
 
-func stripClosure(s string) string { return reClosure.ReplaceAllString(s, "") }
+func stripClosure(s string) string {
+	// inlined closures are rendered as  pkg.(*T).m.func1.(*T).other.1  — keep the outermost named function
+	if i := strings.Index(s, ".func"); i > 0 {
+		s = s[:i]
+	}
+	return reClosure.ReplaceAllString(s, "")
+}
 
 // PanicSig builds "panic|<fn>|<text>". Call inside the deferred recover handler.
 func PanicSig(rec any) (sig string, chain []string) {
